@@ -1705,7 +1705,15 @@ def fresh_dict(eng, st, t, name):
   kt, vt = parse_type(t[1]), parse_type(t[2])
   if kt != "int":
     raise_unsupported("symbolic dict with non-int keys")
-  return HDict(items=None, dom=z3.Array(V.fresh_name(name + ".dom"), I, B), val_t=vt, rep=V.fresh_rep(vt, name))
+  return HDict(items=None, dom=z3.Array(V.fresh_name(name + ".dom"), I, B), val_t=vt, rep=V.fresh_rep(vt, name),
+               nin=z3.Bool(V.fresh_name(name + ".has_none")), nval=_fresh_scalar(vt, name + ".none_val"))
+
+
+def _fresh_scalar(vt, name):
+  try:
+    return V.fresh(vt, name)
+  except TypeError:
+    return None
 
 
 def havoc_dict(eng, st, o, name, decl_t=None):
@@ -1721,6 +1729,7 @@ def havoc_dict(eng, st, o, name, decl_t=None):
     if vt is None or any(isinstance(k, HK) or not isinstance(k, int) for k in o.items):
       raise_unsupported("havoc of dict needs a declared type (loop contract types=...)")
   o.items, o.dom, o.val_t, o.rep = None, z3.Array(V.fresh_name(name + ".dom"), I, B), vt, V.fresh_rep(vt, name)
+  o.nin, o.nval = z3.Bool(V.fresh_name(name + ".has_none")), _fresh_scalar(vt, name + ".none_val")
 
 
 def _dict_spec_view(eng, st, o):
@@ -1748,6 +1757,11 @@ def dict_contains(eng, st, o, item):
     if not isinstance(hk, HK) and _all_concrete_keys(o.items):
       return hk in o.items
     return eng.or_(*[eng.eq(st, item, unhash(k)) for k in o.items])
+  if item is None:
+    return o.nin
+  if isinstance(item, Opt):      # None is a legal key: its own slot
+    return eng.ite(item.isnone, o.nin, z3.Select(o.dom, to_z3(eng._int(item.val)))) \
+        if not isinstance(item.isnone, bool) else (o.nin if item.isnone else z3.Select(o.dom, to_z3(eng._int(item.val))))
   return z3.Select(o.dom, to_z3(eng.need_int(st, item)))
 
 
@@ -1767,6 +1781,19 @@ def dict_get(eng, st, o, key, node):
       if eng.choose(st, eng.eq(st, key, unhash(k))):
         return v
     eng.implicit(st, "KeyError", False, node, "key not in dict")
+  if key is None or isinstance(key, Opt):
+    isn = True if key is None else key.isnone
+    if o.nval is None and not (isinstance(isn, bool) and not isn):
+      raise_unsupported("None key in a dict whose value type has no scalar model")
+    if isinstance(isn, bool) and isn:
+      eng.implicit(st, "KeyError", o.nin, node, "key None not in dict")
+      return o.nval
+    k = to_z3(eng._int(key.val))
+    if isinstance(isn, bool):
+      eng.implicit(st, "KeyError", z3.Select(o.dom, k), node, "key not in dict")
+      return V.select_rep(o.val_t, o.rep, k)
+    eng.implicit(st, "KeyError", z3.If(isn, to_z3(o.nin), z3.Select(o.dom, k)), node, "key not in dict")
+    return eng.ite(isn, o.nval, V.select_rep(o.val_t, o.rep, k))
   k = to_z3(eng.need_int(st, key))
   eng.implicit(st, "KeyError", z3.Select(o.dom, k), node, "key not in dict")
   v = V.select_rep(o.val_t, o.rep, k)
@@ -1783,11 +1810,31 @@ def dict_set(eng, st, o, key, v, node):
     if (not isinstance(hk, HK) and _all_concrete_keys(o.items)) or hk in o.items:
       o.items[hk] = v
       return
-    if not o.items and is_int_like(key):
+    if not o.items and (is_int_like(key) or isinstance(key, Opt)):
       vt = eng.value_type(st, v)
       o.items, o.dom, o.val_t, o.rep = None, z3.K(I, z3.BoolVal(False)), vt, V.fresh_rep(vt, "dict")
+      o.nin, o.nval = False, V.default_of(vt)
     else:
       raise_unsupported("symbolic key stored into concrete-structure dict")
+  if key is None or isinstance(key, Opt):
+    isn = True if key is None else key.isnone
+    vv = V.coerce(o.val_t, v)
+    if isinstance(isn, bool) and isn:
+      o.nin, o.nval = True, vv
+      return
+    k = to_z3(eng._int(key.val))
+    if isinstance(isn, bool):
+      o.dom = z3.Store(o.dom, k, z3.BoolVal(True))
+      o.rep = V.store_rep(o.val_t, o.rep, k, vv)
+      return
+    if o.val_t != "int":
+      raise_unsupported("Optional key in a dict with non-int values")
+    # one store, guarded by `key is None`
+    o.nval = eng.ite(isn, vv, o.nval)
+    o.nin = eng.or_(o.nin, isn)
+    o.dom = z3.If(isn, o.dom, z3.Store(o.dom, k, z3.BoolVal(True)))
+    o.rep = z3.If(isn, o.rep, z3.Store(o.rep, k, to_z3(vv)))
+    return
   k = to_z3(eng.need_int(st, key))
   o.dom = z3.Store(o.dom, k, z3.BoolVal(True))
   o.rep = V.store_rep(o.val_t, o.rep, k, V.coerce(o.val_t, v))
